@@ -8,8 +8,13 @@ Open Scope Z_scope.
 
 (** whenever decode returns, the size of what it returns is within the limit *)
 Theorem C07_list_bound : forall d data raw hs d', dec_ok d ->
-  Decoder_decode d data raw = (Ok hs, d') -> list_size (map conv hs) <= d.(d_max_list).
+  Decoder_decode d data raw = (Ok hs, d') -> list_size (map conv hs) <= Z.max 0 d.(d_max_list).
 Proof. exact decode_list_bound. Qed.
+(* (for a negative limit only the empty list is ever returned, whose size is 0) *)
+Corollary C07_list_bound_nonneg : forall d data raw hs d', dec_ok d -> 0 <= d.(d_max_list) ->
+  Decoder_decode d data raw = (Ok hs, d') -> list_size (map conv hs) <= d.(d_max_list).
+Proof. intros d data raw hs d' H H0 H1. pose proof (decode_list_bound d data raw hs d' H H1) as H2.
+  rewrite Z.max_r in H2 by exact H0. exact H2. Qed.
 
 (** the running size is checked field by field: at every point of the block loop the fields
     held are, except possibly the last one, within the limit -- so at most limit/32 + 1 fields
@@ -25,8 +30,8 @@ Proof. exact decode_loop_bound. Qed.
 
 (** the crossing field raises the oversized error (the RFC decoder's [Oversized] is by
     definition raised at the first field whose running size exceeds the limit) *)
-Theorem C07_crossing_rejected : forall d data raw d', dec_ok d ->
-  (Decoder_decode d data raw = (Err OversizedHeaderListError, d') <->
+Theorem C07_crossing_rejected : forall d data raw, dec_ok d ->
+  (fst (Decoder_decode d data raw) = Err OversizedHeaderListError <->
    decode KLIM (ctx_of d) data (negb raw) = SErr Oversized).
 Proof. exact oversized_iff. Qed.
 Theorem C07_spec_crossing : forall K fuel c b tl acc run never ins name value rest,
@@ -49,6 +54,7 @@ Example C07_exactly_at_limit :
 Proof. vm_compute. split; reflexivity. Qed.
 
 Print Assumptions C07_list_bound.
+Print Assumptions C07_list_bound_nonneg.
 Print Assumptions C07_loop_bound.
 Print Assumptions C07_crossing_rejected.
 Print Assumptions C07_spec_crossing.
